@@ -118,3 +118,42 @@ impl Args {
         self.0.contains_key(k)
     }
 }
+
+/// Watchdog for drivers that run library commands on the main thread: a command that does not return within the
+/// armed time is a hang (deadlock) - the process writes `<out>.hang` and exits with code 3 instead of blocking the check.
+pub mod watch {
+    use std::sync::{
+        Mutex,
+        atomic::{AtomicU64, Ordering},
+    };
+
+    static DEADLINE: AtomicU64 = AtomicU64::new(0);
+    static WHAT: Mutex<String> = Mutex::new(String::new());
+
+    fn now() -> u64 {
+        std::time::SystemTime::now().duration_since(std::time::UNIX_EPOCH).map_or(0, |d| d.as_secs())
+    }
+    pub fn start(hangfile: String) {
+        _ = std::thread::spawn(move || {
+            loop {
+                std::thread::sleep(std::time::Duration::from_millis(500));
+                let d = DEADLINE.load(Ordering::Relaxed);
+                if d != 0 && now() > d {
+                    let what = WHAT.lock().map(|w| w.clone()).unwrap_or_default();
+                    _ = std::fs::write(&hangfile, &what);
+                    eprintln!("HANG: {what}");
+                    std::process::exit(3);
+                }
+            }
+        });
+    }
+    pub fn arm(secs: u64, what: &str) {
+        if let Ok(mut w) = WHAT.lock() {
+            *w = what.to_string();
+        }
+        DEADLINE.store(now() + secs, Ordering::Relaxed);
+    }
+    pub fn disarm() {
+        DEADLINE.store(0, Ordering::Relaxed);
+    }
+}
